@@ -101,6 +101,26 @@ NEEDS = {
  "C18e-live-typedict-on-failed-build": ("C18", ["C18"], "a rejected text with a nested typedef that does not resolve, built before the failure point"),
  "C19e-findmodule-writes-import-module": ("C19", ["C19"], "concurrent readers resolving an import prefix write Import.Module on the shared AST"),
  "C20e-prefix-subtract-after-partial-update": ("C20", ["C20"], "a short write in a call whose line state before the chunk differs from the state after it"),
+ "C01f-stray-comment-close-loops": ("C01", ["C01", "C02"], "a stray */ outside comments and strings: the lexer emits empty tokens forever"),
+ "C02f-inpattern-cleared-by-plus": ("C02", ["C02"], "a pattern argument written as several double-quoted pieces: the pieces after the first are not lexed in pattern mode"),
+ "C03f-extension-keyword-first-colon": ("C03", ["C03"], "a keyword with two or more colons is accepted and filed as an extension statement (NOT counted as property-breaking: C03 files prefixed keywords under the extensions and does not say whether a:b:c is prefixed)"),
+ "C04f-augment-mods-dedup-by-name": ("C04", ["C04"], "two revisions of a module loaded, the older one has a top-level augment: never applied, never reported"),
+ "C05f-failed-typedef-memo": ("C05", ["C05"], "a typedef derivation cycle of two or more members: one error naming whichever member is entered first"),
+ "C06f-dup-rpc-io-parent-dropped": ("C06", ["C06", "C12"], "an action with input/output in a grouping: the copies' input and output keep the template's parent"),
+ "C07f-augmentable-rejects-lazy-io": ("C07", ["C07"], "an augment of the input or output an rpc or action does not write"),
+ "C08f-deviates-grouped-by-kind": ("C08", ["C08"], "one deviation with three deviate statements in which a kind comes back after another kind"),
+ "C09f-owner-prefix-before-submodule-imports": ("C09", ["C09"], "a submodule with a belongs-to prefix of its own that imports a module under the prefix its owner declares for itself"),
+ "C10f-contains-search-offset": ("C10", ["C10"], "a multi-part restriction of a multi-part parent with a part (not the last) in a parent part other than the first"),
+ "C11f-cycle-check-via-getvalue-name": ("C11", ["C11"], "a derivation cycle whose members have namesakes in an earlier-sorting module that derive from the cycle"),
+ "C12f-readonly-shortcut-input-notification": ("C12", ["C12"], "an action or notification nested below config false data"),
+ "C13f-find-compares-submodule-with-root": ("C13", ["C13", "C07"], "an augment written in a submodule that targets a node of its own module through the belongs-to prefix"),
+ "C14f-enum-table-reused-on-retry": ("C14", ["C14", "C18"], "an invalid enum or bits member list resolved a second time (second Process, GetModule)"),
+ "C15f-parseint-errrange-dropped": ("C15", ["C15", "C10"], "an integer literal of magnitude 2^64 or more is clamped instead of rejected"),
+ "C16f-skipindent-expanded-width-in-col": ("C16", ["C16"], "a double-quoted string with a tab-indented continuation line and another statement after the closing quote on that line"),
+ "C17f-module-by-bare-name": ("C17", ["C17"], "two revisions loaded, an absolute path whose prefix denotes the older one"),
+ "C18f-getmodule-serves-cached-entry": ("C18", ["C18"], "GetModule for a loaded module after a load or after a failing Process"),
+ "C19f-entry-cache-memo-under-rlock": ("C19", ["C19"], "concurrent cache-hit lookups of two different nodes of one set"),
+ "C20f-blockwise-write-count": ("C20", ["C20"], "a single Write of more than 8192 bytes with a fault in a middle block of 4096"),
  "C20b-empty-write-clears-partial": ("C20", ["C20"], "zero-length Write in the middle of a line clears the mid-line flag: the next Write gets a prefix inside the line"),
  "C20-early-out-continued-line": ("C20", ["C20"], "short write of 1..len(prefix) bytes on a Write that continues a partial line returns 0 although caller bytes were written"),
 }
